@@ -10,6 +10,9 @@ import ElysModel.Gen.Arith.calcReturnAmount
 import ElysModel.Gen.Arith.borrowInterestRateComputation
 import ElysModel.Gen.Arith.calcFundingRate
 import ElysModel.Gen.Arith.getFundingPaymentRates
+import ElysModel.Gen.Arith.getLiquidationPrice
+import ElysModel.Gen.Arith.calcMTPTakeProfitCustody
+import ElysModel.Gen.Arith.calcMinCollateral
 import ElysModel.Gen.Arith.Table
 import ElysModel.Lemmas.GenTie
 import ElysModel.Lemmas.AmmBase
@@ -164,6 +167,43 @@ theorem funding_paid_by_one_side (frL frS oiL oiS l s : Int) (hL : 0 ≤ frL) (h
       have h4n := quoNonneg _ _ _ h3n hoSp ht4
       have := Prod.mk.inj h
       omega
+
+/-- the edge cases of three more perpetual computations as the source has them now: a long without custody and a short without liabilities
+have no liquidation price (0, not a division by zero); a position whose take-profit price is infinite or unset reserves no take-profit
+custody; a leverage of at most 1 has no minimum collateral (refused before the division by leverage − 1). -/
+theorem perp_edge_cases (sf liab cust tp pos price dec rmin : Int) (inf : Bool) :
+    Gen.Arith.getLiquidationPrice 1 0 sf liab = .ok 0 ∧ Gen.Arith.getLiquidationPrice 2 cust sf 0 = .ok 0 ∧
+    Gen.Arith.calcMTPTakeProfitCustody true tp pos liab = .ok 0 ∧ Gen.Arith.calcMTPTakeProfitCustody inf 0 pos liab = .ok 0 ∧
+    Gen.Arith.calcMinCollateral P price dec rmin = .error .badArgs := by
+  refine ⟨rfl, rfl, rfl, ?_, rfl⟩
+  unfold Gen.Arith.calcMTPTakeProfitCustody
+  simp [pure, Except.pure]
+
+/-- the take-profit custody a position reserves is never negative: for a non-negative debt and a positive take-profit price, on both sides. -/
+theorem take_profit_custody_nonneg (tp pos liab r : Int) (htp : 0 < tp) (hl : 0 ≤ liab)
+    (h : Gen.Arith.calcMTPTakeProfitCustody false tp pos liab = .ok r) : 0 ≤ r := by
+  have hp : 0 < P := P_pos
+  unfold Gen.Arith.calcMTPTakeProfitCustody at h
+  have h0 : tp ≠ 0 := by omega
+  simp only [h0, Bool.false_eq_true, or_self, if_false] at h
+  by_cases h1 : pos = 1
+  · simp only [h1, if_true] at h
+    obtain ⟨t1, ht1, h⟩ := bind_ok h
+    cases h
+    unfold quoC at ht1
+    simp only [h0, if_false] at ht1
+    have e := chk_ok ht1
+    subst e
+    unfold Dec.quo
+    exact Int.tdiv_nonneg (monotone_round2_le _ (Int.tdiv_nonneg (Int.mul_nonneg (Int.mul_nonneg (Int.mul_nonneg hl (by omega)) (by omega)) (by omega)) (by omega))) (by omega)
+  · simp only [h1, if_false] at h
+    obtain ⟨t2, ht2, h⟩ := bind_ok h
+    cases h
+    unfold mulC at ht2
+    have e := chk_ok ht2
+    subst e
+    unfold Dec.mul
+    exact Int.tdiv_nonneg (monotone_round2_le _ (Int.mul_nonneg (Int.mul_nonneg hl (by omega)) (by omega))) (by omega)
 
 /-- balanced open interest pays the base rate; a one-sided market pays the maximum. -/
 theorem funding_rate_cases (a base mx mn : Int) (ha : 0 < a) :
